@@ -647,6 +647,9 @@ func (x *Exec) heapArr(st *State, name string, idx, elt Sort) *Term {
 	}
 	// arrays first touched after a whole-heap havoc belong to that havoc generation, not to the entry heap
 	gen := x.heapGenOf(st, name)
+	if gen != "0" && x.isFinalArray(name) {
+		gen = "0"
+	}
 	t := x.D.Const(smtName(name+"@"+gen), ArraySort(idx, elt))
 	if root, ok := x.loopBaseGen(st, name); ok && root != gen && idx.K == KInt {
 		// first touched after the havoc of a loop that writes this array only at objects allocated
@@ -671,6 +674,9 @@ func (x *Exec) heapArr(st *State, name string, idx, elt Sort) *Term {
 			st.fwd = map[string]*fwdCache{}
 		}
 		st.fwd[name] = &fwdCache{arr: t.S, ent: map[string]*Term{}, base: base, allFresh: true}
+		// (remembered: under "attr loopframe fresh" the assumption below is an invariant that the
+		// rest of the loop body has to preserve, see zz_entryframe.go)
+		st.ghost["$late:"+name] = t
 		// the same fact for the solver: memory that existed at entry reads as before the loop
 		st.Assume(&Term{S: fmt.Sprintf("(forall ((|lo?r| Int)) (! (=> (<= |lo?r| (* %d |alloc0|)) (= (select %s |lo?r|) (select %s |lo?r|))) :pattern ((select %s |lo?r|))))", refK, t.S, base.S, t.S), Sort: SBool})
 	}
@@ -692,6 +698,9 @@ func (x *Exec) heapArr(st *State, name string, idx, elt Sort) *Term {
 }
 
 func (x *Exec) heapHavoc(st *State, name string) {
+	if x.isFinalArray(name) {
+		return // a field written only during construction (zz_final.go)
+	}
 	if t, ok := st.heap[name]; ok {
 		st.heap[name] = x.freshSym("hv."+name, t.Sort)
 		x.noteBorn(st.heap[name])
